@@ -101,7 +101,7 @@ struct Encoding<
       element_size_sum += Encoding<ValueType>::Size(element);
 
     return BaseEncodingSize(Prefix(value)) +
-           Encoding<SizeType>::Size(value.size()) + element_size_sum;
+           Encoding<::nop::SizeType>::Size(value.size()) + element_size_sum;
   }
 
   static constexpr bool Match(EncodingByte prefix) {
@@ -112,15 +112,15 @@ struct Encoding<
   static constexpr Status<void> WritePayload(EncodingByte /*prefix*/,
                                              const Type& value,
                                              Writer* writer) {
-    const SizeType size = static_cast<SizeType>(value.size());
+    const ::nop::SizeType size = static_cast<::nop::SizeType>(value.size());
     if (!IsUnbounded && size > Length)
       return ErrorStatus::InvalidContainerLength;
 
-    auto status = Encoding<SizeType>::Write(size, writer);
+    auto status = Encoding<::nop::SizeType>::Write(size, writer);
     if (!status)
       return status;
 
-    for (SizeType i = 0; i < size; i++) {
+    for (::nop::SizeType i = 0; i < size; i++) {
       status = Encoding<ValueType>::Write(value[i], writer);
       if (!status)
         return status;
@@ -132,20 +132,22 @@ struct Encoding<
   template <typename Reader>
   static constexpr Status<void> ReadPayload(EncodingByte /*prefix*/,
                                             Type* value, Reader* reader) {
-    SizeType size = 0;
-    auto status = Encoding<SizeType>::Read(&size, reader);
+    ::nop::SizeType size = 0;
+    auto status = Encoding<::nop::SizeType>::Read(&size, reader);
     if (!status)
       return status;
-    else if (!IsUnbounded && size > Length)
+    else if ((!IsUnbounded && size > Length) ||
+             size > static_cast<::nop::SizeType>(
+                        std::numeric_limits<SizeType>::max()))
       return ErrorStatus::InvalidContainerLength;
 
-    for (SizeType i = 0; i < size; i++) {
+    for (::nop::SizeType i = 0; i < size; i++) {
       status = Encoding<ValueType>::Read(&(*value)[i], reader);
       if (!status)
         return status;
     }
 
-    value->size() = size;
+    value->size() = static_cast<SizeType>(size);
     return {};
   }
 };
@@ -167,8 +169,8 @@ struct Encoding<LogicalBuffer<BufferType, SizeType, IsUnbounded>,
 
   static constexpr std::size_t Size(const Type& value) {
     const std::size_t size = value.size() * sizeof(ValueType);
-    return BaseEncodingSize(Prefix(value)) + Encoding<SizeType>::Size(size) +
-           size;
+    return BaseEncodingSize(Prefix(value)) +
+           Encoding<::nop::SizeType>::Size(size) + size;
   }
 
   static constexpr bool Match(EncodingByte prefix) {
@@ -179,11 +181,12 @@ struct Encoding<LogicalBuffer<BufferType, SizeType, IsUnbounded>,
   static constexpr Status<void> WritePayload(EncodingByte /*prefix*/,
                                              const Type& value,
                                              Writer* writer) {
-    const SizeType size = value.size();
+    const ::nop::SizeType size = static_cast<::nop::SizeType>(value.size());
     if (!IsUnbounded && size > Length)
       return ErrorStatus::InvalidContainerLength;
 
-    auto status = Encoding<SizeType>::Write(size * sizeof(ValueType), writer);
+    auto status =
+        Encoding<::nop::SizeType>::Write(size * sizeof(ValueType), writer);
     if (!status)
       return status;
 
@@ -193,8 +196,8 @@ struct Encoding<LogicalBuffer<BufferType, SizeType, IsUnbounded>,
   template <typename Reader>
   static constexpr Status<void> ReadPayload(EncodingByte /*prefix*/,
                                             Type* value, Reader* reader) {
-    SizeType size_bytes = 0;
-    auto status = Encoding<SizeType>::Read(&size_bytes, reader);
+    ::nop::SizeType size_bytes = 0;
+    auto status = Encoding<::nop::SizeType>::Read(&size_bytes, reader);
     if (!status) {
       return status;
     } else if ((!IsUnbounded && size_bytes > Length * sizeof(ValueType)) ||
@@ -202,8 +205,11 @@ struct Encoding<LogicalBuffer<BufferType, SizeType, IsUnbounded>,
       return ErrorStatus::InvalidContainerLength;
     }
 
-    const SizeType size = size_bytes / sizeof(ValueType);
-    value->size() = size;
+    const ::nop::SizeType size = size_bytes / sizeof(ValueType);
+    if (size > static_cast<::nop::SizeType>(std::numeric_limits<SizeType>::max()))
+      return ErrorStatus::InvalidContainerLength;
+
+    value->size() = static_cast<SizeType>(size);
     return reader->Read(value->begin(), value->end());
   }
 };
